@@ -788,6 +788,9 @@ func (se *SpecEnv) ghostGet2(g *GhostVar, k1, k2 string) Value {
 	srt := se.e.sr.sortOf(t)
 	se.e.noteMapType("G!"+g.Name, t, "elem")
 	m := se.e.heapGet(se.s, "G!"+g.Name, arr("Int", arr("Int", srt)))
+	if strings.HasPrefix(g.Name, "buf") {
+		return Value{T: sel2(se.e.ctx.resolveSel(m, k1), k2), Sort: srt, GoT: t}
+	}
 	return Value{T: sel2(sel2(m, k1), k2), Sort: srt, GoT: t}
 }
 
@@ -803,5 +806,8 @@ func (se *SpecEnv) ghostGet(g *GhostVar, obj string) Value {
 	}
 	se.e.noteMapType("G!"+g.Name, t, "field")
 	m := se.e.heapGet(se.s, "G!"+g.Name, arr("Int", srt))
+	if strings.HasPrefix(g.Name, "buf") {
+		return Value{T: se.e.ctx.resolveSel(m, obj), Sort: srt, GoT: t}
+	}
 	return Value{T: sel2(m, obj), Sort: srt, GoT: t}
 }
